@@ -53,9 +53,29 @@ FamTty == <<
   Sc(<<Async(<<P(1), Pause>>), Sub(<<P(2), Pause>>), P(3), Kill(1, "TERM"), Wait(1), P(4)>>, <<"INT">>),
   Sc(<<Sub(<<P(1), Pause>>), P(2), Bg(1), P(3), Kill(1, "TERM"), Wait(1), P(4)>>, <<"TSTP">>) >>
 
+\* several jobs at once (job control only; thorough tier)
+FamMix == <<
+  Sc(<<Async(<<P(1), Pause>>), Async(<<P(2), Pause>>), P(3), Fg(2), P(4), Fg(1), P(5)>>, <<"INT", "INT">>),
+  Sc(<<Sub(<<P(1), Pause>>), Sub(<<P(2), Pause>>), P(3), Bg(1), Fg(2), P(4), Kill(1, "TERM"), Wait(1), P(5)>>,
+     <<"TSTP", "TSTP", "INT">>),
+  Sc(<<Pipe(<<P(1), Pause>>, <<P(2), Pause>>), Pipe(<<P(3), Pause>>, <<P(4), Pause>>), Fg(1), Fg(2), P(5)>>,
+     <<"TSTP", "TSTP", "INT", "INT">>),
+  Sc(<<Sub(<<P(1), StopMe("TSTP"), P(2), StopMe("STOP"), P(3), Ret(9)>>), Bg(1), P(4), Fg(1), P(5)>>, <<>>),
+  Sc(<<Async(<<Pipe(<<P(1), Pause>>, <<P(2), Pause>>)>>), P(3), Fg(1), P(4)>>, <<"TSTP">>) >>
+
+\* a process below the job's first process stops alone: nobody is told, the
+\* job hangs (the specification predicts the hang)
+FamHang == <<
+  Sc(<<Sub(<<P(1), Sub(<<P(2), StopMe("TSTP"), P(3)>>), P(4)>>), P(5)>>, <<>>),
+  Sc(<<Pipe(<<P(1), StopMe("STOP"), P(2)>>, <<P(3)>>), P(4)>>, <<>>) >>
+
 \* a pipeline one of whose commands has already finished is stopped and resumed
+\* (G16-F1), a job is signalled right after it has been started (G16-F2 in an
+\* interactive shell) or when it has just terminated (G16-F1)
 FamZomb == <<
-  Sc(<<Pipe(<<P(1)>>, <<P(2), Pause>>), P(3), Fg(1), P(4)>>, <<"TSTP", "INT">>) >>
+  Sc(<<Pipe(<<P(1)>>, <<P(2), Pause>>), P(3), Fg(1), P(4)>>, <<"TSTP", "INT">>),
+  Sc(<<Async(<<P(1), Pause>>), Kill(1, "TERM"), Wait(1), P(2)>>, <<>>),
+  Sc(<<Async(<<P(1), Ret(5)>>), Kill(1, "INT"), Wait(1), P(2)>>, <<>>) >>
 
 \* without job control the terminal signals reach everybody in the shell's group
 FamNoMon == <<
@@ -65,10 +85,11 @@ FamNoMon == <<
 Fam(f) == CASE f = "fg" -> FamFg [] f = "async" -> FamAsync
             [] f = "stop" -> FamStop("TSTP") \o FamStop("STOP")
             [] f = "stop1" -> FamStop("TSTP")
-            [] f = "tty" -> FamTty [] f = "zomb" -> FamZomb [] f = "nomon" -> FamNoMon
+            [] f = "tty" -> FamTty [] f = "zomb" -> FamZomb [] f = "nomon" -> FamNoMon [] f = "mix" -> FamMix
+            [] f = "hang" -> FamHang
 FamNo(f) == CASE f = "fg" -> 1 [] f = "async" -> 2 [] f = "stop" -> 3 [] f = "stop1" -> 3 [] f = "tty" -> 4
-              [] f = "zomb" -> 5 [] f = "nomon" -> 6
-NeedsMonitor(f) == f \in {"stop", "stop1", "tty", "zomb"}
+              [] f = "zomb" -> 5 [] f = "nomon" -> 6 [] f = "mix" -> 7 [] f = "hang" -> 8
+NeedsMonitor(f) == f \in {"stop", "stop1", "tty", "zomb", "mix", "hang"}
 
 \* shell configurations: name -> [m, i, fg0, spg, sl]
 CfgTable == <<
